@@ -117,6 +117,7 @@ fn small_script(name: &str) -> Script {
             Step::Restart,
             Step::Append { q: 0, pos: None, batch: vec![Payload { seed: 3, len: 10, embed: None }] },
         ],
+        expect: None,
     }
 }
 
